@@ -53,7 +53,8 @@ AXES = {
     # only / empty) - balanced, properly nested
     "span_style": [None, "italics", "italics+color", "class-defined", "class-undefined", "color-only", "nested-bold", "nested-underline", "nested-empty", "text-align", "layout-on-text-only"],
     "span_val": VALS,
-    "set_style_id": [None] + VALS[1:7] + ["p", "default"],
+    # "bottom" / "r0": the names the writers give to the default region and to the first region they create
+    "set_style_id": [None] + VALS[1:7] + ["p", "default", "bottom", "r0"],
     "set_style_val": VALS,
     "lang": ["en-US"] + VALS[1:7],
     # "2x": two languages, the first of which also has two positioned captions of its own (layouts no other language uses)
@@ -199,7 +200,9 @@ def check_doc(doc, expected_langs, expected_ps, klass):
             ids.setdefault(i, []).append(el.tag.split("}")[-1])
     for i, kinds in ids.items():
         if len(kinds) > 1:
-            v.append(("duplicate-xml-id", {"id": i, "elements": kinds}))
+            # a style whose id is one of the names the writers use for regions ("bottom", "r<n>") is a finding of its own
+            like_region = set(kinds) == {"style", "region"} and (i == "bottom" or (i[:1] == "r" and i[1:].isdigit()))
+            v.append(("duplicate-xml-id" + (":style-named-like-a-region" if like_region else ""), {"id": i, "elements": kinds}))
     region_ids = {i for i, k in ids.items() if "region" in k}
     style_ids = {i for i, k in ids.items() if "style" in k}
     used_regions = set()
@@ -247,6 +250,13 @@ def in_domain(cfg):
     return True
 
 
+def _sig(wname, kind, klass):
+    """violation signature; a style named like a region is one finding per writer, whatever else the set contains"""
+    if kind.endswith(":style-named-like-a-region"):
+        return f"C07/{wname}/{kind}"
+    return f"C07/{wname}/{kind}/{klass}"
+
+
 def expected_p_counts(cfg, wname, langs):
     nps = [{2} if (wname != "DFXPWriter" and cfg["concurrent"] is True) else {3} for _ in langs]
     if cfg["nlangs"] in ("2e", "e2"):
@@ -285,7 +295,7 @@ def evaluate_raw(cfg, wname, opt):
         exp_langs = langs
     nps = expected_p_counts(cfg, wname, exp_langs)
     out = check_doc(doc, exp_langs, nps, None)
-    return [(f"C07/{wname}/{kind}/{minimal_class(cfg)}", dict(det, cfg={k: cfg[k] for k in cfg if cfg[k] != AXES[k][0]})) for kind, det in out], "ok" if not out else "bad"
+    return [(_sig(wname, kind, minimal_class(cfg)), dict(det, cfg={k: cfg[k] for k in cfg if cfg[k] != AXES[k][0]})) for kind, det in out], "ok" if not out else "bad"
 
 
 def evaluate(cfg, wname, opt):
@@ -432,7 +442,7 @@ def run_shard(d):
                             break
                     prev = minimal_class(hist[-2]) if len(hist) == 2 else "longer-history"
                     for kind, det in res:
-                        acc.violation(f"C07/{w}/{kind}/writer-object-reused/after:{prev}", {"k": "reuse", "w": w, "order": hist}, dict(det, doc=doc[:900]))
+                        acc.violation(_sig(w, kind, f"writer-object-reused/after:{prev}"), {"k": "reuse", "w": w, "order": hist}, dict(det, doc=doc[:900]))
                     writer = writer_for(w, {})
     else:
         import pycaption
@@ -493,7 +503,7 @@ def replay(case):
             nps = expected_p_counts(cfg, w, langs)
             if step == len(order) - 1:
                 prev = (minimal_class(order[step - 1]) if len(order) == 2 else "longer-history") if step else "-"
-                out = [{"sig": f"C07/{w}/{kind}/writer-object-reused/after:{prev}", "detail": det} for kind, det in check_doc(doc, langs, nps, None)]
+                out = [{"sig": _sig(w, kind, f"writer-object-reused/after:{prev}"), "detail": det} for kind, det in check_doc(doc, langs, nps, None)]
         return out
     if case["k"] == "api":
         cfg = _fix_cfg(case["cfg"])
